@@ -1,7 +1,8 @@
 ----------------------------- MODULE Collector -----------------------------
 (***************************************************************************)
-(* C05 / C07 (and the totality half of C06): variable collection for one   *)
-(* frame.                                                                  *)
+(* C05 / C07 (and the totality half of C06): variable collection for the   *)
+(* paused frame, the frames below it (frame_type all_frame) and the        *)
+(* watches - one variable table, one identity cache, one budget.           *)
 (*                                                                         *)
 (* Code: processor/bfs breadth_first_search, VariableSetProcessor          *)
 (* (process_variable / search_function / check_var_count), VariableCache-  *)
@@ -12,11 +13,13 @@
 (* The input is an object graph: nodes 1..N with a kind, ordered children  *)
 (* (sharing and cycles allowed) and the length of the value's text; node 0 *)
 (* is the frame's locals mapping whose children are the locals in          *)
-(* declaration order. One step of the machine = one iteration of the       *)
-(* work-list loop (one call of search_function).                           *)
+(* declaration order; node -j is the locals mapping of the j-th frame      *)
+(* below it. One step of the machine = one iteration of the work-list loop *)
+(* (one call of search_function). The frames are collected one after the   *)
+(* other (top first), each by its own work-list loop, then the watches.    *)
 (* PopFromEnd = TRUE is the named deviation (pre-fix `queue.pop()`).       *)
 (***************************************************************************)
-EXTENDS Naturals, Sequences, FiniteSets, TLC
+EXTENDS Integers, Sequences, FiniteSets, TLC
 
 CONSTANTS Instances,    \* set of instance records (see MC_Collector), or {} when driven by a trace
           PopFromEnd,   \* deviation switch: take the work item from the END of the list (depth first)
@@ -25,28 +28,32 @@ CONSTANTS Instances,    \* set of instance records (see MC_Collector), or {} whe
 
 Dangling == 9999
 
-VARIABLES inst,   \* [kind, child, slen, roots, maxVars, maxStr, maxColl, maxDepth, watch, wlim]  (never changes)
+VARIABLES inst,   \* [kind, child, slen, roots, frames, maxVars, maxStr, maxColl, maxDepth, watch, wlim]  (never changes)
+                  \*   frames = the locals (in declaration order) of each frame below the paused one that is collected
                   \*   watch = nodes that the tracepoint's watch expressions evaluate to (after the frame),
                   \*   wlim = [maxVars, maxColl, maxDepth] of the watch processor (the defaults in the code)
           queue,  \* work list: sequence of [n, d, p] = node, depth, parent variable id
-          rec,    \* recording order: rec[id] = [n, d] (variable id = position, as new_var_id does)
+          rec,    \* recording order: rec[id] = [n, d, f] (variable id = position, as new_var_id does); f = the loop that
+                  \*   recorded it: 0 the paused frame, j the j-th frame below, 1000 + k the k-th watch
           kids,   \* kids[id] = sequence of variable ids referenced as children of id, in order
           done,   \* the frame's loop has ended
           cut,    \* TRUE when it ended because the variable budget ran out
           wi,     \* index of the watch being evaluated (watch phase, after done)
           wres,   \* watch results so far: variable id, or 0 for an error result
           wbusy,  \* a watch value is being collected (its own work-list loop is running)
-          flen    \* number of variables recorded by the frame phase (0 until it is done)
+          flen,   \* number of variables recorded by the frame loops that have ended (0 until the first is done)
+          fi,     \* index of the next frame below the paused one
+          fbusy   \* the loop of frame fi is running
 
-vars == <<inst, queue, rec, kids, done, cut, wi, wres, wbusy, flen>>
+vars == <<inst, queue, rec, kids, done, cut, wi, wres, wbusy, flen, fi, fbusy>>
 
 NoChildKinds == {"int", "str", "none", "iter"}
 ListLike == {"list", "tuple", "exc"}
 (* "hostile" = a value whose children cannot be read (no __dict__, raising attribute access ...): recorded, no children *)
 Kinds == NoChildKinds \cup ListLike \cup {"dict", "obj", "hostile"}
 
-KindOf(n) == IF n = 0 THEN "dict" ELSE inst.kind[n]
-ChildSeq(n) == IF n = 0 THEN inst.roots ELSE inst.child[n]
+KindOf(n) == IF n <= 0 THEN "dict" ELSE inst.kind[n]
+ChildSeq(n) == IF n = 0 THEN inst.roots ELSE IF n < 0 THEN inst.frames[-n] ELSE inst.child[n]
 
 Prefix(s, k) == IF Len(s) <= k THEN s ELSE SubSeq(s, 1, k)
 
@@ -73,13 +80,15 @@ InitWith(i) ==
     /\ wres = <<>>
     /\ wbusy = FALSE
     /\ flen = 0
+    /\ fi = 1
+    /\ fbusy = FALSE
 
 Init == \E i \in Instances : InitWith(i)
 
 AddKid(k, p, id) == IF p = 0 THEN k ELSE [k EXCEPT ![p] = Append(k[p], id)]
 
 (* one iteration of the work-list loop under the given limits; sets stop' when the loop ends *)
-Loop(maxVars, maxDepth, maxColl, ended, budget) ==
+Loop(maxVars, maxDepth, maxColl, ended, budget, ph) ==
     IF queue = <<>>
       THEN /\ ended /\ UNCHANGED <<queue, rec, kids>>
       ELSE LET pos  == IF PopFromEnd THEN Len(queue) ELSE 1
@@ -97,33 +106,51 @@ Loop(maxVars, maxDepth, maxColl, ended, budget) ==
                ELSE LET id == Len(rec) + 1
                         ch == ChildrenWith(item.n, item.d, maxDepth, maxColl)
                         new == [i \in 1..Len(ch) |-> [n |-> ch[i], d |-> item.d + 1, p |-> id]]
-                    IN /\ rec' = Append(rec, [n |-> item.n, d |-> item.d])
+                    IN /\ rec' = Append(rec, [n |-> item.n, d |-> item.d, f |-> ph])
                        /\ kids' = AddKid(Append(kids, <<>>), item.p, id)
                        /\ queue' = rest \o new
 
 Step ==
     /\ ~done
-    /\ \/ /\ Loop(inst.maxVars, inst.maxDepth, inst.maxColl, FALSE, FALSE)
+    /\ \/ /\ Loop(inst.maxVars, inst.maxDepth, inst.maxColl, FALSE, FALSE, 0)
           /\ UNCHANGED <<done, cut, flen>>
        \/ /\ queue = <<>> /\ done' = TRUE /\ flen' = Len(rec) /\ UNCHANGED <<queue, rec, kids, cut>>
        \/ /\ queue # <<>> /\ Len(rec) > inst.maxVars
           /\ done' = TRUE /\ cut' = TRUE /\ flen' = Len(rec) /\ queue' = <<>> /\ UNCHANGED <<rec, kids>>
-    /\ UNCHANGED <<inst, wi, wres, wbusy>>
+    /\ UNCHANGED <<inst, wi, wres, wbusy, fi, fbusy>>
+
+(* the frames below the paused one (frame_type all_frame): each is collected by its own loop over its own locals   *)
+(* mapping; table, identity cache and variable budget are those of the snapshot                                   *)
+FramesDone == fi > Len(inst.frames) /\ ~fbusy
+
+FrameBegin ==
+    /\ done /\ ~fbusy /\ fi <= Len(inst.frames)
+    /\ queue' = << [n |-> -fi, d |-> 0, p |-> 0] >> /\ fbusy' = TRUE
+    /\ UNCHANGED <<inst, rec, kids, done, cut, wi, wres, wbusy, flen, fi>>
+
+FrameStep ==
+    /\ done /\ fbusy
+    /\ \/ /\ Loop(inst.maxVars, inst.maxDepth, inst.maxColl, FALSE, FALSE, fi)
+          /\ UNCHANGED <<fi, fbusy, flen>>
+       \/ /\ (queue = <<>> \/ Len(rec) > inst.maxVars)
+          /\ fi' = fi + 1 /\ fbusy' = FALSE /\ flen' = Len(rec)
+          /\ queue' = <<>> /\ UNCHANGED <<rec, kids>>
+    /\ UNCHANGED <<inst, done, cut, wi, wres, wbusy>>
 
 (* watches are evaluated after the frame, each by its own processor that shares the identity cache *)
 WatchBegin ==
-    /\ done /\ ~wbusy /\ wi <= Len(inst.watch)
+    /\ done /\ FramesDone /\ ~wbusy /\ wi <= Len(inst.watch)
     /\ LET n == inst.watch[wi] IN
          IF IdOf(n) # 0
            THEN /\ wres' = Append(wres, IdOf(n)) /\ wi' = wi + 1          \* already collected: a reference
                 /\ UNCHANGED <<queue, wbusy>>
            ELSE /\ queue' = << [n |-> n, d |-> 0, p |-> 0] >> /\ wbusy' = TRUE
                 /\ UNCHANGED <<wi, wres>>
-    /\ UNCHANGED <<inst, rec, kids, done, cut, flen>>
+    /\ UNCHANGED <<inst, rec, kids, done, cut, flen, fi, fbusy>>
 
 WatchStep ==
     /\ done /\ wbusy
-    /\ \/ /\ Loop(inst.wlim.maxVars, inst.wlim.maxDepth, inst.wlim.maxColl, FALSE, FALSE)
+    /\ \/ /\ Loop(inst.wlim.maxVars, inst.wlim.maxDepth, inst.wlim.maxColl, FALSE, FALSE, 1000 + wi)
           /\ UNCHANGED <<wi, wres, wbusy>>
        \/ /\ (queue = <<>> \/ Len(rec) > inst.wlim.maxVars)
           \* the loop ended (or the budget is used up): the result is the value's id, or an error result (0)
@@ -131,20 +158,20 @@ WatchStep ==
                                    ELSE IdOf(inst.watch[wi]))
           /\ wi' = wi + 1 /\ wbusy' = FALSE
           /\ queue' = <<>> /\ UNCHANGED <<rec, kids>>
-    /\ UNCHANGED <<inst, done, cut, flen>>
+    /\ UNCHANGED <<inst, done, cut, flen, fi, fbusy>>
 
-AllDone == done /\ ~wbusy /\ wi > Len(inst.watch)
+AllDone == done /\ FramesDone /\ ~wbusy /\ wi > Len(inst.watch)
 
-Next == Step \/ WatchBegin \/ WatchStep \/ (AllDone /\ UNCHANGED vars)
+Next == Step \/ FrameBegin \/ FrameStep \/ WatchBegin \/ WatchStep \/ (AllDone /\ UNCHANGED vars)
 
 Spec == Init /\ [][Next]_vars
-FairSpec == Spec /\ WF_vars(Step \/ WatchBegin \/ WatchStep)
+FairSpec == Spec /\ WF_vars(Step \/ FrameBegin \/ FrameStep \/ WatchBegin \/ WatchStep)
 (* cyclic and self-referential data terminates *)
 Terminates == <>AllDone
 
 ---------------------------------------------------------------------------
 (* what the snapshot shows for variable id *)
-InFrame(id) == ~done \/ id <= flen                \* recorded by the frame phase (its limits apply)
+InFrame(id) == id <= flen \/ (wi = 1 /\ ~wbusy)    \* recorded by a frame loop (the tracepoint's limits apply)
 StrLimit(id) == IF InFrame(id) THEN inst.maxStr ELSE inst.wlim.maxStr
 ValLen(id) == IF inst.slen[rec[id].n] <= StrLimit(id) THEN inst.slen[rec[id].n] ELSE StrLimit(id)
 Truncated(id) == inst.slen[rec[id].n] > StrLimit(id)
@@ -154,7 +181,7 @@ FrameRec == IF done THEN SubSeq(rec, 1, flen) ELSE rec
 CountBound == Len(FrameRec) <= inst.maxVars + 1
 DepthBound == \A i \in 1..Len(FrameRec) : rec[i].d < inst.maxDepth \/ rec[i].d = 0
 CollBound == \A i \in 1..Len(FrameRec) : KindOf(rec[i].n) \in ListLike => Len(kids[i]) <= inst.maxColl
-BreadthFirst == \A i, j \in 1..Len(FrameRec) : i < j => rec[i].d <= rec[j].d
+BreadthFirst == \A i, j \in 1..Len(FrameRec) : (i < j /\ rec[i].f = rec[j].f) => rec[i].d <= rec[j].d
 (* the watch processors are bounded as well (by their own budget) *)
 WatchBound == Len(rec) <= (IF inst.maxVars > inst.wlim.maxVars THEN inst.maxVars ELSE inst.wlim.maxVars) + 1
 (* the frame's own locals are never crowded out by the contents of one of them *)
@@ -163,7 +190,7 @@ LocalsFirst ==
         \A r \in 1..Len(inst.roots) : IdOf(inst.roots[r]) \in 1..flen
 (* every reachable node within depth and collection limits is recorded when the budget was not hit *)
 CompleteWhenNotCut ==
-    (done /\ ~cut /\ wi = 1 /\ ~wbusy) => \A i \in 1..Len(rec) :
+    (done /\ ~cut /\ wi = 1 /\ ~wbusy /\ fi = 1 /\ ~fbusy) => \A i \in 1..Len(rec) :
         LET ch == ChildrenOf(rec[i].n, rec[i].d) IN
         /\ Len(kids[i]) = Len(ch)
         /\ \A k \in 1..Len(ch) : kids[i][k] = IdOf(ch[k])
@@ -174,7 +201,11 @@ OneIdPerObject == \A i, j \in 1..Len(rec) : rec[i].n = rec[j].n => i = j
 NoRepeatDescent == [][Len(rec') > Len(rec) => IdOf(rec'[Len(rec')].n) = 0]_vars
 TablesAligned == Len(kids) = Len(rec)
 (* a watch result is an error result or resolves to an entry of the table (the locals wrapper, id 1, is not one) *)
-WatchClosed == \A k \in 1..Len(wres) : wres[k] = 0 \/ wres[k] \in 2..Len(rec)
+WatchClosed == \A k \in 1..Len(wres) : wres[k] = 0 \/ (wres[k] \in 2..Len(rec) /\ rec[wres[k]].n > 0)
+(* one budget for the whole snapshot: the frames below the paused one do not get a fresh one *)
+FramesShareBudget == Len(SubSeq(rec, 1, flen)) <= inst.maxVars + 1
+(* an object that several frames hold is recorded once *)
+FramesShareIdentity == \A i, j \in 1..Len(rec) : (rec[i].n = rec[j].n) => i = j
 (* a watch whose value is already in the frame refers to that variable, it is not recorded again *)
 WatchDedup == \A k \in 1..Len(wres) : wres[k] # 0 => rec[wres[k]].n = inst.watch[k]
 =============================================================================
